@@ -101,8 +101,14 @@ def gen_enum(rng, idx, n_enabled, placement, generics, kinds, robust=False):
                 break
         if not placed:
             variants.append(dict(ident="W%d" % len(variants), kind="tuple", tys=[g], disabled=True, extra=""))
+    # one variant may be spelled as a raw identifier (`r#type`): a name like any other
+    ri = noise.raw_ident("c05-%s" % name) if not robust else None
+    cands = [v for v in variants if v["ident"].startswith("V") and v["ident"][1:].isdigit()]
+    if ri and cands and len(variants) <= 70:
+        import random as _r
+        _r.Random("raw-ident-pos-c05-%s" % name).choice(cands)["ident"] = ri
     return dict(name=name, generics=generics, variants=variants, n=sum(1 for v in variants if not v["disabled"]),
-                placement=placement)
+                placement=placement, vis="pub" if robust else noise.visibility("c05-%s" % name))
 
 
 GEN_DECL = {
@@ -214,8 +220,36 @@ def generate(rng, seed, size):
     for n in ([] if robust else ([13, 21, 33, 64, 127, 128, 255, 256, 257, 1025, 4097] if size != "small" else [13, 33])) + extra_sizes:
         enums.append(gen_enum(rng, idx, n, rng.choice(["none", "random", "alternating"] if n < 100 else ["none", "random", "middle"]), "none", ["unit", "unit", "tuple"] if n < 100 else ["unit"]))
         idx += 1
+    # systematic: field-less enums WITHOUT disabled variants under an integer repr whose discriminants form a dense block
+    # declared out of numeric order (descending, shuffled, around zero) - declaration order decides, never the values
+    forced_discr = {}
+    if not robust and size != "small":
+        import random as _r
+        frng = _r.Random("c05-dense-repr-%d" % seed)
+        for (n, repr_ty, how) in [(5, "i8", "around_zero"), (7, "u8", "shuffled"), (3, "isize", "descending"), (12, "i64", "around_zero")]:
+            e = gen_enum(frng, idx, n, "none", "none", ["unit"])
+            for v in e["variants"]:
+                v["extra"], v["noise"] = "", []
+            if how == "descending":
+                vals = [n - 1 - i for i in range(n)]
+            elif how == "shuffled":
+                vals = list(range(n)); frng.shuffle(vals)
+            else:
+                vals = [i - n // 2 for i in range(n)]; frng.shuffle(vals)
+            if vals == sorted(vals):
+                vals.reverse()
+            forced_discr[e["name"]] = (vals, repr_ty, how)
+            enums.append(e)
+            idx += 1
     # explicit discriminants on all-unit enums (iteration order is declaration order, whatever the values)
     for e in enums:
+        if e["name"] in forced_discr:
+            vals, repr_ty, how = forced_discr[e["name"]]
+            for v, d in zip(e["variants"], vals):
+                v["discr"] = d
+            e["repr"] = repr_ty
+            e["discr_mode"] = "dense %s repr(%s)" % (how, repr_ty)
+            continue
         if robust or e["generics"] != "none" or any(v["kind"] != "unit" for v in e["variants"]) or not e["variants"]:
             continue
         if rng.random() < 0.5:
@@ -230,6 +264,15 @@ def generate(rng, seed, size):
             for v, d in zip(e["variants"], vals):
                 v["discr"] = d
             e["discr_mode"] = mode
+            # half of them also carry an integer repr (own PRNG stream): declaration order still decides
+            import random as _r
+            rr = _r.Random("c05-repr-%d-%s" % (seed, e["name"]))
+            if rr.random() < 0.6:
+                fits = ["u8", "i16", "u16", "i32", "u32", "i64", "isize", "usize"] if max(vals) <= 255 else ["i16", "u16", "i32", "u32", "i64", "isize", "usize"]
+                if max(vals) > 32767:
+                    fits = ["i32", "u32", "i64", "isize", "usize"]
+                e["repr"] = rr.choice(fits)
+                e["discr_mode"] = "%s repr(%s)" % (mode, e["repr"])
 
     out = []
     out.append("// @generated by /verif/gen/gen_corpus.py --seed %d (engine c05, size %s). Do not edit.\n" % (seed, size))
@@ -251,15 +294,18 @@ def generate(rng, seed, size):
                 out.append(l + "\n")
             for l in noise.enum_strum_noise(rng):
                 out.append(l + "\n")
-        out.append("pub enum %s%s {\n" % (e["name"], decl))
+        if e.get("repr"):
+            out.append("#[repr(%s)]\n" % e["repr"])
+        out.append("%s enum %s%s {\n" % (e.get("vis", "pub"), e["name"], decl))
         for v in e["variants"]:
             out.append(render_variant(v))
         out.append("}\n")
         insts = [("", "plain")]
         if e["generics"] != "none":
             insts = [(inst_fmt.format("u8", "String"), "u8"), (inst_fmt.format("NotSendSync", "NotSendSync"), "nss")]
-            probes.append("%s%s" % (e["name"], inst_fmt.format("NotSendSync", "NotSendSync")))
-        else:
+            if e.get("vis", "pub") in ("pub", "pub(crate)", "pub(super)"):
+                probes.append("%s%s" % (e["name"], inst_fmt.format("NotSendSync", "NotSendSync")))
+        elif e.get("vis", "pub") in ("pub", "pub(crate)", "pub(super)"):
             probes.append(e["name"])
         for (inst, tag) in insts:
             fn = "exp_%s_%s" % (e["name"].lower(), tag)
